@@ -263,6 +263,7 @@ def bisim(doc, src):
                 bad("alias-type", name, "type %s = %s, metamodel type maps to %s" % (name, al["type"], want_t))
             if has_cfg_proposed(al["attrs"]) != bool(a.get("proposed")):
                 bad("proposed-gate", name, "alias %s feature gate does not match proposed=%s" % (name, bool(a.get("proposed"))))
+    known_extra = set()
     # ---- methods
     for role, lst, enum_name in (("request", mm.requests, "LSPRequestMethods"), ("notification", mm.notifications, "LSPNotificationMethods")):
         en = img["enums"].get(enum_name)
@@ -281,6 +282,11 @@ def bisim(doc, src):
             for nm in names:
                 stats["facets"] += 1
                 st = img["structs"].get(nm)
+                if st is None and m.get("typeName") and not nm.endswith("Response") and m["typeName"] in img["structs"]:
+                    # the statement does not fix the struct's name: a typeName used verbatim is accepted
+                    nm = m["typeName"]
+                    known_extra.add(nm)
+                    st = img["structs"][nm]
                 if st is None:
                     bad("missing-message-struct", m["method"], "%s %s has no message struct %s" % (role, m["method"], nm))
                     continue
@@ -317,7 +323,7 @@ def bisim(doc, src):
     for kind in ("structs", "enums", "aliases"):
         for n, it in img[kind].items():
             stats["facets"] += 1
-            if n in known or re.fullmatch(r"OR\d+", n):
+            if n in known or n in known_extra or re.fullmatch(r"OR\d+", n):
                 continue
             if kind == "structs" and n in referenced:
                 # invented literal struct reached only through alias variants etc.: must at least be referenced
